@@ -56,6 +56,7 @@ class Cfg:
     foreign_only: Tuple[int, int] = (1, 20)  # probability that one domain holds only objects of other classes (needs noise)
     empty_dom: Tuple[int, int] = (1, 12)     # probability that a domain may come out empty (when dom[0] == 0)
     earlier_sharing: Tuple[int, int] = (0, 1)  # probability of earlier queries that share comparison objects with the query
+    force_template: Optional[str] = None     # every condition is drawn from this shape template
     extra_templates: Tuple[str, ...] = ()    # additional weight for named shape templates (needs >= 2 variables)
 
 
@@ -149,6 +150,23 @@ def const_int(draw, ctx):
 CMP_OPS = ["==", "!=", "<", "<=", ">", ">="]
 
 
+def value_term_any(draw, ctx: Ctx, var: int):
+    """A value-typed term over one variable whose value may be falsy: the anything slot, an int term, the string."""
+    e = ent_term(draw, ctx, var)
+    k = draw(st.sampled_from(["o", "o", "int", "s"]))
+    return ["attr", e, "o"] if k == "o" else (int_term(draw, ctx, var) if k == "int" else ["attr", e, "s"])
+
+
+def value_pred(draw, ctx: Ctx, T_):
+    """A predicate whose argument is a VALUE: HasType(value, int | tuple) or the @predicate function p_val_eq(value, const)."""
+    if draw(st.booleans()):
+        return ["hastype", T_, draw(st.sampled_from(["int", "int", "tuple"])), draw(st.sampled_from(["kw", "pos", "pos_kw", "kw_rev"]))]
+    P = ctx.P
+    consts = P["ints"] if (T_[0] != "attr" or T_[2] not in ("o", "s")) else (P["strs"] if T_[2] == "s" else
+                                                                             [a for a in P["anys"] if not isinstance(a, list)])
+    return ["fpred", "p_val_eq", [T_, ["const", enc(draw(st.sampled_from(consts)))]]]
+
+
 # ----------------------------------------------------------------------------- leaves
 
 def leaf(draw, ctx: Ctx, vars_: List[int]):
@@ -187,6 +205,8 @@ def leaf(draw, ctx: Ctx, vars_: List[int]):
         kinds += ["fpred1", "fpred1r", "cpred1", "hastype"]
     if cfg.allow_preds and cfg.allow_truth:
         kinds += ["heavy"]
+    if cfg.allow_preds and cfg.allow_any:
+        kinds += ["valpred"]
     kinds = [x for x in kinds if x not in cfg.exclude_leaves]
     k = draw(st.sampled_from(kinds))
     P = ctx.P
@@ -223,6 +243,8 @@ def leaf(draw, ctx: Ctx, vars_: List[int]):
                 ["const", enc(tuple(tup))]]
     if k == "big":
         return ["truth", ["call", ent_term(draw, ctx, x), "is_big", []]]
+    if k == "valpred":
+        return value_pred(draw, ctx, value_term_any(draw, ctx, x))
     if k == "heavy":
         return ["truth", ["call", ent_term(draw, ctx, x), "heavy", []]]     # the method calls a @predicate function
     if k == "atleast":
@@ -306,6 +328,8 @@ def template_cond(draw, ctx: Ctx, force=None):
         ["same_var_or", "and_of_ors_samevar"]
     if cfg.allow_truth and cfg.allow_not and "starts" not in cfg.exclude_leaves:
         T += ["truth_then_nested_use"]
+    if cfg.allow_preds and cfg.allow_any and "tval" not in cfg.exclude_leaves:
+        T += ["truth_or_value_pred"]
     if n >= 2:
         T += [t_ for t_ in cfg.extra_templates if n >= 3 or not t_.startswith("indep_")]
     t = force or draw(st.sampled_from(T))
@@ -340,6 +364,16 @@ def template_cond(draw, ctx: Ctx, force=None):
                                        ["not", "not_", ["in", "in_", ["const", draw(st.sampled_from(["x", "y"]))], T_]],
                                        ["cmp", "!=", T_, ["const", draw(st.sampled_from(["x", "xy"]))]]]))
         return ["and", f(), [["truth", T_], second]]
+    if t == "truth_or_value_pred":
+        # f = x.o stands in condition position AND is passed on, as a value, to a predicate - in one disjunction, so that
+        # the rows on which f is falsy reach the predicate: or_(f, HasType(f, int)), or_(p_val_eq(f, 0), f, ...)
+        x = draw(st.integers(0, n - 1))
+        T_ = value_term_any(draw, ctx, x)
+        parts = [["truth", T_], value_pred(draw, ctx, T_)]
+        if chance(draw, 1, 3):
+            parts.append(leaf(draw, ctx, [x]))
+        ctx.wants_shared_terms = True
+        return ["or", f(), list(draw(st.permutations(parts)))]
     if t == "not_and_then_other":
         # not(a(x) & b(y)) & c(y) - the disjunction De Morgan makes of the negated conjunction stands left of a condition
         # on y - or not((a(x) & b(y)) | not c(y))
@@ -497,11 +531,11 @@ def query_case(draw, cfg: Cfg):
     if cfg.allow_empty_cond and chance(draw, 1, 15):
         cond = None
     else:
-        cond = template_cond(draw, ctx)
+        cond = template_cond(draw, ctx, cfg.force_template)
     case = {"ents": recs, "doms": doms, "vars": vars_, "cond": cond,
             "dom_kind": draw(st.sampled_from(cfg.dom_kinds)),
             "split_top": draw(st.booleans()), "quant": cfg.quant}
-    if chance(draw, 1, 4):
+    if chance(draw, 1, 4) or (getattr(ctx, "wants_shared_terms", False) and chance(draw, 2, 3)):
         case["share_terms"] = True      # equal mapping terms are ONE expression object (f = x.a used several times)
         # ... and after the query was built the same objects are mentioned once more, in expressions that are constructed
         # but never evaluated (build.later_uses)
